@@ -419,6 +419,8 @@ def exprstr(n):
         return 'nullptr'
     if k == 'FloatingLiteral':
         return str(n.get('value'))
+    if k == 'ArraySubscriptExpr':
+        return '%s[%s]' % (exprstr(n['inner'][0]), exprstr(n['inner'][1]))
     if k == 'InitListExpr':
         return '{%s}' % ', '.join(exprstr(a) for a in n.get('inner', []))
     return '<%s>' % k
@@ -468,6 +470,17 @@ def skeleton(n):
         cond = exprstr(inner[2]) if inner[2] else ''
         inc = exprstr(inner[3]) if inner[3] else ''
         return ['for (%s ; %s ; %s) { %s }' % (init, cond, inc, ' ; '.join(skeleton(inner[4])))]
+    if k == 'CXXForRangeStmt':
+        inner = [c for c in n['inner'] if isinstance(c, dict) and c]
+        rng = next((c for c in inner if c.get('kind') == 'DeclStmt' and c['inner'][0].get('name', '').startswith('__range')), None)
+        var = [c for c in inner if c.get('kind') == 'DeclStmt' and not c['inner'][0].get('name', '').startswith('__')]
+        src = '?'
+        if rng is not None:
+            ini = [c for c in rng['inner'][0].get('inner', []) if isinstance(c, dict) and 'kind' in c]
+            src = exprstr(ini[-1]) if ini else '?'
+        return ['for (%s : %s) { %s }' % (var[-1]['inner'][0].get('name') if var else '?', src, ' ; '.join(skeleton(inner[-1])))]
+    if k == 'CompoundAssignOperator':
+        return ['store %s %s %s' % (exprstr(n['inner'][0]), n.get('opcode'), exprstr(n['inner'][1]))]
     if k == 'UnaryOperator':
         return ['eval ' + exprstr(n)]
     if k == 'ExprWithCleanups':
